@@ -9,7 +9,13 @@ PROP = "C09"
 RULE = ("seeded random Pauli sums (Y-heavy, gapped supports, constants, zero and duplicate terms, complex "
         "coefficients k/8+(l/8)i, shuffled dict order, explicit identity letters; flavours: Z-only / X-only / Y-only / "
         "full-width / palindromic terms, all coefficients equal, unit coefficients, int / numpy-scalar / -0.0 coefficients, "
-        "coefficients scaled by 2^12 or 2^-10, magnitudes spanning 2^-20..2^16 inside one operator, imaginary parts of "
+        "coefficients scaled by 2^12 or 2^-10, magnitudes spanning 2^-20..2^16 inside one operator, TYPE LADDER: the same exact value spelled as numpy complex64 / clongdouble / float32 / float16 / "
+        "longdouble / int8 / int16 / int32 / int64 / uint8 / uint16 / bool_, Python bool, fractions.Fraction, sympy Integer / Rational / Float / a+b*I "
+        "(each only where the type carries the value exactly and the unchanged library accepts it for that API), as initial "
+        "coefficient, as sibling 'other type', as assigned coefficient in a session, on wide / huge registers and in sums of 64+ terms; "
+        "matrices for get_pauliop_from_matrix as ndarray / row arrays / lists / tuples of those dtypes, the operator's matrix of "
+        "those dtypes for hermitian_conjugated / is_hermitian (dense and sparse), state vectors of those dtypes for Wavefunction(...) "
+        "and expectation(matrix, state) (vector, column, density matrix); imaginary parts of "
         "relative size 1e-6, sums of 64-71 terms) at widths width..width+2 (a few at 6-7 qubits; n also as numpy integer) "
         "for get_sparse_operator / hermitian_conjugated+is_hermitian (operator, dense and sparse matrix inputs) / "
         "reverse_qubit_order / get_expectation_value + expectation (vector, column vector, LinearOperator, csc and csr "
@@ -29,6 +35,8 @@ RULE = ("seeded random Pauli sums (Y-heavy, gapped supports, constants, zero and
         "magnitude present; non-trivial: some term has a Y and a gap in its support, or n > width; for matrices: size >= 4 "
         "and not symmetric; sessions: >= 2 calls; wide/huge: always; distinct = distinct canonical JSON of the case")
 TRUSTED = [
+    "numpy / fractions / sympy scalar types carry the dyadic values k/8 * 2^j used on the type ladder exactly (checked per value by "
+    "_ladder_value: the spelling is only used when converting back gives the same double); complex(x) reads any of them back",
     "scipy.sparse.kron is the Kronecker product (a scalar first factor acts as a 1x1 matrix) and stores no explicit zeros",
     "csc.tocoo().data lists the stored values column by column; csc.nonzero() lists (row, col) in row-major order",
     "coo_matrix((v,(r,c))).tocsc() sums duplicate positions; .toarray() densifies",
@@ -44,6 +52,16 @@ TRUSTED = [
     "PauliSum.terms, Wavefunction.__setitem__, entries of the caller's matrix)",
 ]
 ASSUMPTIONS = [
+    "NUMBER TYPES (established on the unchanged library, harness/props/c09.py LADDER_*): a coefficient may be any Python int / float / "
+    "complex / bool, any numpy scalar (complex64 / complex128 / clongdouble / float16 / float32 / float64 / longdouble / (u)int8..64 / bool_), "
+    "a fractions.Fraction or a sympy number; get_sparse_operator / get_expectation_value are only defined for the types scipy.sparse "
+    "accepts (it rejects float16 and dtype object -- Fraction, sympy -- with a ValueError naming the dtype: not generated); "
+    "is_hermitian(operator) is `operator == hermitian_conjugated(operator)` and the library's == of operators RAISES (TypeError / "
+    "OverflowError from PauliTerm.__hash__ / np.allclose) for sums with a numpy.complex64 / clongdouble / float16 coefficient and for "
+    "any operator with a Fraction / sympy coefficient: there the Hermiticity test gives no answer and only hermitian_conjugated is "
+    "judged (a returned answer is judged for every type); matrices: sympy entries are outside get_pauliop_from_matrix's domain "
+    "(coefficients are laundered through str()), dense float16 / bool matrices outside is_hermitian's (FINDING is-hermitian-float16-matrix; "
+    "numpy refuses `-` on booleans)",
     "PauliTerm._ops is a dict: qubit indices of one term are distinct (Term.WF in the theorems)",
     "dec2bin(number, length) is only called with number < 2**length (true at every call site)",
     "the wavefunction has 2**n amplitudes (enforced by the Wavefunction constructor)",
@@ -67,9 +85,39 @@ def _mods():
     return PauliSum, PauliTerm, get_sparse_operator, hermitian_conjugated, is_hermitian, U, Wavefunction
 
 
+# --------------------------------------------------------------------------- the type ladder of a number
+# The property quantifies over COEFFICIENTS (complex numbers), not over the Python class that carries one: the same value
+# k/8 + (l/8) i spelled as numpy.complex64 / clongdouble / float32 / float16 / longdouble / int8..int64 / uint8 / uint16 / bool_,
+# as a Python bool, a fractions.Fraction or a sympy number (Integer, Rational, Float, a + b*I) denotes the same operator.  A tag
+# is only honoured where the type carries the value EXACTLY (otherwise the spelling falls back to a Python complex), so the
+# exact model still answers every case.  (harness/ladder.py: the tags and their constructors, shared with C03.)
+from ..ladder import (LADDER_ALL, LADDER_CPLX, LADDER_INT, LADDER_OBJ, LADDER_REAL, NP_NAMES as _NP_NAMES,  # noqa: E402,F401
+                      ladder_pick as _ladder_pick, ladder_value as _ladder_value, tclass as _tclass, typed_array as _typed_array)
+
+# accepted by get_sparse_operator / get_expectation_value (scipy.sparse rejects float16 and dtype object with a ValueError)
+LADDER_SPARSE = tuple(t for t in LADDER_ALL if t not in LADDER_OBJ and t != "f16")
+# long-lived, edited operators (sessions): without the unsigned types -- numpy itself refuses `uint8 + negative Python int`
+# (OverflowError) when like terms are added, so an unsigned coefficient is only generated where the generator controls its like terms
+LADDER_SESSION = tuple(t for t in LADDER_SPARSE if t not in ("u8", "u16"))
+# dtypes of a caller's matrix (get_pauliop_from_matrix; hermitian_conjugated / is_hermitian on a matrix) and of a state vector
+LADDER_MATRIX = ("c64", "clg", "f32", "f16", "flg", "i8", "i16", "i32", "u8", "nb", "pb", "fr")
+LADDER_HC_MATRIX = ("c64", "clg", "f32", "flg", "i8", "i16", "i32", "u8", "nb")
+LADDER_STATE = ("c64", "clg", "f32", "f16", "flg", "i8", "i32", "u8", "nb", "list")
+# how the IMPLEMENTATION's object spells a coefficient (read by run_impl): classes on which the unchanged library's `==` of
+# operators (hence is_hermitian) raises instead of answering -- PauliTerm.__hash__ calls round() on the coefficient unless it is an
+# instance of `complex` (TypeError for numpy.complex64 / clongdouble, OverflowError for float16 * 1e6), np.allclose raises TypeError
+# on Fraction / sympy objects
+HERM_UNDEFINED_SUM = ("np:complex64", "np:complex256", "np:float16", "fraction", "sympy")
+HERM_UNDEFINED_TERM = ("fraction", "sympy")
+
+
 def _coef(t):
-    re, im = float(unrat(t["c"][0])), float(unrat(t["c"][1]))
     ty = t.get("t", "c")
+    if ty in LADDER_ALL:
+        v = _ladder_value(ty, unrat(t["c"][0]), unrat(t["c"][1]))
+        if v is not None:
+            return v
+    re, im = float(unrat(t["c"][0])), float(unrat(t["c"][1]))
     if ty == "i" and im == 0 and re == int(re):
         return int(re)
     if ty == "f" and im == 0:
@@ -149,9 +197,26 @@ def _entry_scalar(e):
     return complex(float(unrat(e[0])), float(unrat(e[1])))
 
 
-def _build_matrix(m, form="list", mutable=False):
-    """the caller's matrix object handed to get_pauliop_from_matrix"""
+def _matrix_tags(m, allowed=LADDER_MATRIX):
+    """the ladder dtypes that carry every entry of the matrix spec m exactly"""
+    return [t for t in allowed if all(_ladder_value(t, unrat(e[0]), unrat(e[1])) is not None for row in m for e in row)]
+
+
+def _build_matrix(m, form="list", mutable=False, dt=None):
+    """the caller's matrix object handed to get_pauliop_from_matrix (dt: a ladder dtype carrying every entry exactly: the
+    matrix as an ndarray / rows of that dtype, or as lists / tuples of scalars of that type)"""
     import numpy as np
+    if dt is not None and m and m[0]:
+        typed = [[_ladder_value(dt, unrat(e[0]), unrat(e[1])) for e in row] for row in m]
+        if all(v is not None for row in typed for v in row):
+            npdt = object if dt == "fr" else getattr(np, _NP_NAMES[dt])
+            if form == "ndarray":
+                return np.array(typed, dtype=npdt)
+            if form == "rows":
+                return [np.array(r, dtype=npdt) for r in typed]
+            if form == "tuple" and not mutable:
+                return tuple(tuple(r) for r in typed)
+            return typed
     rows = [[_entry_scalar(e) for e in row] for row in m]
     if not mutable and all(unrat(e[1]) == 0 for row in m for e in row):
         if all(unrat(e[0]).denominator == 1 for row in m for e in row):
@@ -295,7 +360,7 @@ def _is_simplified(terms):
 
 
 # --------------------------------------------------------------------------- generators
-FLAVOURS = ["ising", "x", "y", "full", "int", "np", "scaled", "uniform", "pal", "span", "tinyim", "unit"]
+FLAVOURS = ["ising", "x", "y", "full", "int", "np", "scaled", "uniform", "pal", "span", "tinyim", "unit", "ladder", "ladder", "ladder"]
 EXACT_ONLY = ("scaled", "span", "tinyim")
 
 
@@ -306,7 +371,18 @@ def _pick_flavour(rng, exact=True):
     return None if (f in EXACT_ONLY and not exact) else f
 
 
-def _gen_coeff(rng, exact, flavour=None):
+def _gen_coeff(rng, exact, flavour=None, ladder=None):
+    """ladder: the tags of the type ladder this coefficient may be spelled with (always under the flavour "ladder", else now and
+    then; only where the type carries the value exactly)"""
+    c, ty = _gen_coeff_plain(rng, exact, flavour)
+    if ladder and exact and (flavour == "ladder" or rng.random() < 0.1):
+        tag = _ladder_pick(rng, c, ladder)
+        if tag is not None:
+            ty = tag
+    return c, ty
+
+
+def _gen_coeff_plain(rng, exact, flavour=None):
     if flavour == "unit":
         re, im = rng.choice([(1, 0), (1, 0), (-1, 0), (0, 1)])
         return [re, im], ("c" if im else rng.choice(["f", "i", "c"]))
@@ -315,6 +391,10 @@ def _gen_coeff(rng, exact, flavour=None):
         if re == 0 and rng.random() < 0.8:
             re = Fraction(2)
         return [rat(re), rat(im)], "i"
+    if flavour == "ladder" and exact and rng.random() < 0.4:
+        # integers (every integer type of the ladder) and 0 / 1 (the two boolean types)
+        re, im = Fraction(rng.choice([0, 1, 1, 1]) if rng.random() < 0.3 else rng.randrange(-3, 8)), Fraction(0)
+        return [rat(re), rat(im)], rng.choice(["i", "f", "c"])
     if exact:
         re, im = Fraction(rng.randrange(-16, 17), 8), Fraction(rng.randrange(-16, 17), 8)
     else:
@@ -340,7 +420,7 @@ def _gen_coeff(rng, exact, flavour=None):
     return [rat(re), rat(im)], ty
 
 
-def _gen_term(rng, maxq, exact, flavour=None):
+def _gen_term(rng, maxq, exact, flavour=None, ladder=None):
     letters = {"ising": "Z", "x": "X", "y": "Y"}.get(flavour, "XYYZ")
     if maxq == 0 or (flavour != "full" and rng.random() < 0.12):
         ops = []
@@ -360,12 +440,39 @@ def _gen_term(rng, maxq, exact, flavour=None):
                 p = rng.choice("XYYZ")
                 ops += [[q, p]] + ([[maxq - 1 - q, p]] if maxq - 1 - q != q else [])
         rng.shuffle(ops)
-    c, ty = _gen_coeff(rng, exact, flavour)
+    c, ty = _gen_coeff(rng, exact, flavour, ladder)
     t = {"ops": ops, "c": c, "t": ty}
     if rng.random() < 0.05:
         free = [q for q in range(maxq + 3) if q not in [o[0] for o in ops]]
         t["pad_I"] = rng.sample(free, min(len(free), rng.choice([1, 2])))
     return t
+
+
+def _narrow_ok(c):
+    """the value sits on the grid on which sums of like terms stay exact in every narrow type (multiples of 1/8, modulus <= 16)"""
+    re, im = unrat(c[0]), unrat(c[1])
+    return (8 * re).denominator == 1 and (8 * im).denominator == 1 and abs(re) <= 16 and abs(im) <= 16
+
+
+def _fix_narrow(terms):
+    """numpy adds a Python number to a float32 / complex64 / float16 scalar IN THE NARROW TYPE: next to a coefficient off the 1/8-grid
+    (scaled, spanning magnitudes, a 2^-20 imaginary part, a hash twin) a narrow spelling would lose bits in the like-term sums, so
+    the narrow floating rungs are respelled in extended precision (same value, 64-bit mantissa) in such an operator"""
+    if any(not _narrow_ok(t["c"]) for t in terms):
+        for t in terms:
+            if t.get("t") in ("c64", "f32", "f16"):
+                t["t"] = "clg" if t["t"] == "c64" else "flg"
+    return terms
+
+
+def _fix_unsigned(terms):
+    """numpy refuses `uint + negative Python int` (OverflowError): next to an unsigned coefficient a negative Python int is
+    spelled as a float"""
+    if any(t.get("t") in ("u8", "u16") for t in terms):
+        for t in terms:
+            if t.get("t") == "i" and unrat(t["c"][0]) < 0:
+                t["t"] = "f"
+    return terms
 
 
 def _scale(terms, k):
@@ -375,14 +482,20 @@ def _scale(terms, k):
     return terms
 
 
-def _gen_sum(rng, maxq, exact, hermitian=None, flavour=None, nt=None):
+def _gen_sum(rng, maxq, exact, hermitian=None, flavour=None, nt=None, ladder=None):
     r = rng.random()
     if r < 0.06 and nt is None:
         return []
     exact_count = nt is not None
     if nt is None:
         nt = rng.randrange(64, 72) if flavour == "long" else rng.choice([1, 1, 2, 3, 4, 6])
-    terms = [_gen_term(rng, maxq, exact, flavour) for _ in range(nt)]
+    # one sum draws its spellings from ONE family: numpy scalars + Python bool, or the exact-object numbers (Fraction, sympy) next to
+    # plain Python numbers -- sympy refuses to add a numpy scalar or a bool (sympify of their repr fails), Fraction + longdouble raises
+    lad = tuple(t for t in (ladder or ()) if t not in LADDER_OBJ)
+    symfam = flavour == "ladder" and any(t in LADDER_OBJ for t in (ladder or ())) and rng.random() < 0.5
+    if symfam:
+        lad = LADDER_OBJ
+    terms = [_gen_term(rng, maxq, exact, flavour, lad) for _ in range(nt)]
     if flavour == "uniform" and terms:
         for t in terms:
             t["c"], t["t"] = list(terms[0]["c"]), terms[0]["t"]
@@ -403,7 +516,7 @@ def _gen_sum(rng, maxq, exact, hermitian=None, flavour=None, nt=None):
                 t["c"] = [1, 0]
     if flavour == "scaled" and exact:
         _scale(terms, rng.choice([12, -10]))
-    return terms
+    return _fix_narrow(_fix_unsigned(terms))
 
 
 def _dedupe_keys(terms):
@@ -536,6 +649,10 @@ def _gen_psi(rng, n, mode):
             u = rng.choice(units)
             psi[p] = [rat(Fraction(u[0], 2 ** a)), rat(Fraction(u[1], 2 ** a))]
         return psi
+    if mode == "basis":
+        # one computational basis state: carried by every dtype of the ladder, the integer and boolean ones included
+        p = rng.randrange(d)
+        return [[1 if i == p else 0, 0] for i in range(d)]
     if mode == "real":
         psi = _gen_psi(rng, n, "dyadic")
         return [[rat(abs(unrat(a[0])) + abs(unrat(a[1]))), 0] for a in psi]
@@ -641,7 +758,7 @@ def _other_coeff(rng, c):
 def _sibling_sum(rng, s, n):
     """a sum that differs from s in exactly one component"""
     s2 = copy.deepcopy(s)
-    m = rng.choice(["coeff", "coeff", "letter", "qubit", "order", "drop", "dup", "type", "hashtwin", "neg12"])
+    m = rng.choice(["coeff", "coeff", "letter", "qubit", "order", "drop", "dup", "type", "type", "hashtwin", "neg12"])
     t = rng.choice(s2)
     if m == "letter" and t["ops"]:
         o = rng.choice(t["ops"])
@@ -663,12 +780,16 @@ def _sibling_sum(rng, s, n):
     elif m == "neg12" and unrat(t["c"][1]) == 0:
         # hash(-1) == hash(-2) for ints and floats
         t["c"] = [-2 if unrat(t["c"][0]) == -1 else -1, 0]
-    elif m == "type" and unrat(t["c"][1]) == 0:
-        t["t"] = rng.choice([x for x in ["c", "f", "nf", "nc"] if x != t.get("t", "c")])
+    elif m == "type":
+        # the same number carried by another type (Python / numpy double precision, or a rung of the type ladder)
+        plain = ["c", "f", "nf", "nc"] if unrat(t["c"][1]) == 0 else ["c", "nc"]
+        fits = [x for x in LADDER_SESSION if _ladder_value(x, unrat(t["c"][0]), unrat(t["c"][1])) is not None]
+        pool = (fits if fits and rng.random() < 0.6 else plain)
+        t["t"] = rng.choice([x for x in pool if x != t.get("t", "c")] or plain)
     else:
         t["c"] = _other_coeff(rng, t["c"])
         t["t"] = "c"
-    return s2
+    return _fix_narrow(s2)
 
 
 def _gen_session(rng, tier):
@@ -680,10 +801,12 @@ def _gen_session(rng, tier):
     r0 = rng.random()
     fl = "pal" if r0 < 0.15 else "unit" if r0 < 0.27 else _pick_flavour(rng, exact)
     while not base:
-        base = _gen_sum(rng, n, exact, hermitian=herm, flavour=fl)
+        base = _gen_sum(rng, n, exact, hermitian=herm, flavour=fl, ladder=LADDER_SESSION)
         if rng.random() < 0.5 or fl == "pal":
             base = _dedupe_keys(base)
     base = base[:4]
+    wide_only = tuple(t for t in LADDER_SESSION if t not in ("c64", "f32", "f16"))
+    lad0 = LADDER_SESSION if all(_narrow_ok(t["c"]) for t in base) else wide_only   # see _fix_narrow
     B = _Sess(exact)
     idx = [B.term(t) for t in base]
     B.op(idx)
@@ -692,7 +815,7 @@ def _gen_session(rng, tier):
         B.sum(copy.deepcopy(base))                          # equal but not identical
     if rng.random() < 0.6:                                  # shares term objects with operator 0
         share = [k for k in idx if rng.random() < 0.7] or idx[:1]
-        extra = [B.term(_gen_term(rng, n, exact))] if rng.random() < 0.5 else []
+        extra = [B.term(_gen_term(rng, n, exact, ladder=lad0))] if rng.random() < 0.5 else []
         B.op(share + extra)
     if rng.random() < 0.6:                                  # a PauliTerm that IS one of the terms of operator 0
         B.op([rng.choice(idx)], as_term=True)
@@ -701,13 +824,15 @@ def _gen_session(rng, tier):
         tw = copy.deepcopy([B.c["pool"][k] for k in idx])
         tw[0]["c"] = [-2, 0]
         B.sum(tw)
-    spare = [B.term(_gen_term(rng, n, exact)) for _ in range(2)]
+    spare = [B.term(_gen_term(rng, n, exact, ladder=lad0)) for _ in range(2)]
     sums = [i for i, o in enumerate(B.c["ops"]) if not o.get("as_term")]
     editable = list(range(len(B.c["ops"])))
     if rng.random() < 0.25:
         B.op([])                                            # the empty sum (never edited)
     state = {"nops": len(B.c["ops"])}
     no_poison = set()
+    # later edits: narrow spellings only if every coefficient of the session sits on the 1/8-grid (see _fix_narrow)
+    state["lad"] = LADDER_SESSION if all(_narrow_ok(t["c"]) for t in B.c["pool"]) else wide_only
     mode = "dyadic" if exact else rng.choice(["dyadic", "pyth", "sqrt2"])
     p0 = _gen_psi(rng, n, mode)
     B.psi(p0)
@@ -717,6 +842,8 @@ def _gen_session(rng, tier):
     if n > 1 and rng.random() < 0.3:
         B.psi(_gen_psi(rng, n - 1, mode))                   # narrower than some operators: rejected calls
     psi_n = [len(p).bit_length() - 1 for p in B.c["psis"]]
+    if rng.random() < 0.35:
+        B.c["amp_dt"] = rng.choice(["c64", "c64", "clg"])   # expectation(matrix, amplitudes as an array of that dtype) where it fits
     ns = [None, None, n, n, n + 1, n + 2] + ([n - 1] if rng.random() < 0.4 else [])
     weights = rng.choice([["expect"] * 4 + ["sparse", "reverse", "hc"], ["sparse"] * 4 + ["expect", "reverse", "hc"],
                           ["reverse"] * 4 + ["expect", "sparse", "hc"], ["hc"] * 4 + ["expect", "sparse", "reverse"],
@@ -781,7 +908,8 @@ def _gen_session(rng, tier):
             if rng.random() < 0.6:
                 # the derived operator must not follow (or lead back to) its source: edit the source, ask again
                 if src["op"] in editable:
-                    B.step(do="set_coeff", op=src["op"], term=0, c=_gen_coeff(rng, exact)[0], t="c")
+                    cc, tt = _gen_coeff(rng, exact, "ladder" if rng.random() < 0.3 else None, state["lad"])
+                    B.step(do="set_coeff", op=src["op"], term=0, c=cc, t=tt if tt in LADDER_ALL else "c")
                 B.step(do="hc", op=state["nops"] - 1)
                 B.step(do=src["do"], op=src["op"], **({"n": src["n"]} if "n" in src else {}))
                 again = True
@@ -806,7 +934,8 @@ def _gen_session(rng, tier):
             i = rng.choice([last["op"], last["op"], rng.choice(editable)])
             i = i if i in editable else editable[0]
             # position in the operator's term list: only ops whose terms were never re-assigned are edited by position 0
-            B.step(do="set_coeff", op=i, term=0, c=_gen_coeff(rng, exact)[0], t=rng.choice(["c", "c", "f", "nc"]))
+            cc, tt = _gen_coeff(rng, exact, "ladder" if rng.random() < 0.35 else None, state["lad"])
+            B.step(do="set_coeff", op=i, term=0, c=cc, t=tt if tt in LADDER_ALL else rng.choice(["c", "c", "f", "nc"]))
         elif r < 0.71:
             if last["do"] != "expect":                      # an evaluation before the edit, the same one after it
                 last = {"do": "expect", "op": last["op"], "psi": rng.choice([0, 1, 3]), "rev": rng.random() < 0.5}
@@ -822,7 +951,9 @@ def _gen_session(rng, tier):
         elif r < 0.80:
             i = rng.choice([last["op"], rng.choice(editable)])
             i = i if i in editable else editable[0]
-            new = _sibling_sum(rng, base, n) if rng.random() < 0.6 else (_gen_sum(rng, n, exact) or copy.deepcopy(base))
+            new = _sibling_sum(rng, base, n) if rng.random() < 0.6 else (_gen_sum(rng, n, exact, ladder=state["lad"]) or copy.deepcopy(base))
+            if not all(_narrow_ok(t["c"]) for t in new):
+                state["lad"] = wide_only
             if B.c["ops"][i].get("as_term"):
                 B.step(do="replace", op=i, sum=new[:1], as_term=True)
             else:
@@ -844,6 +975,11 @@ def _gen_matrix_session(rng, tier):
     forms = ["list", "ndarray", "rows"]
     B.mat(m0, rng.choice(forms))
     B.mat(copy.deepcopy(m0), rng.choice(forms))             # equal, not identical
+    if rng.random() < 0.5:
+        # the caller's matrices are single / extended precision complex arrays (or lists of such scalars); the edits k/8 fit
+        for k in (0, 1):
+            if rng.random() < 0.7 and "c64" in _matrix_tags(m0, ("c64",)):
+                B.c["mats"][k]["dt"] = rng.choice(["c64", "c64", "clg"])
     m2 = copy.deepcopy(m0)
     i, j = rng.randrange(d), rng.randrange(d)
     m2[i][j] = [rat(unrat(m2[i][j][0]) + Fraction(1, 2)), rat(unrat(m2[i][j][1]) - Fraction(3, 8))]
@@ -882,8 +1018,13 @@ def _adversarial_pair(rng, n):
             return rng.choice(lows), b
 
 
-def _wide_terms(rng, n, maxterms=3):
+def _wide_terms(rng, n, maxterms=3, ladder=None):
     terms = []
+    fl = "ladder" if rng.random() < 0.3 else None
+    lad = tuple(t for t in (ladder or ()) if t not in LADDER_OBJ)
+    if fl and any(t in LADDER_OBJ for t in (ladder or ())) and rng.random() < 0.35:
+        lad = LADDER_OBJ                                     # one family of spellings per operator (see _gen_sum)
+    ladder = lad
     for _ in range(rng.choice([1, 2, 2, 3][:maxterms + 1])):
         if n > 8 and rng.random() < 0.6:
             a, b = _adversarial_pair(rng, n)
@@ -896,11 +1037,11 @@ def _wide_terms(rng, n, maxterms=3):
         rng.shuffle(qs)
         same = rng.random() < 0.4                            # Z1*Z8-like: the same letter on every qubit
         letter = rng.choice("XYZ")
-        c, ty = _gen_coeff(rng, True)
+        c, ty = _gen_coeff(rng, True, fl, ladder)
         terms.append({"ops": [[q, letter if same else rng.choice("XYYZ")] for q in qs], "c": c, "t": ty})
     if rng.random() < 0.3:
         terms.append({"ops": [], "c": ["3/8", "-1/4"], "t": "c"})
-    return terms
+    return _fix_narrow(_fix_unsigned(terms))
 
 
 def _gen_wide(rng, tier, api=None):
@@ -909,7 +1050,7 @@ def _gen_wide(rng, tier, api=None):
     big = tier == "thorough"
     n = rng.choice([9, 9, 10, 10, 11, 12, 13] + ([14] if big else []))
     api = api or rng.choice(["sparse", "reverse", "hc", "expect"])
-    terms = _wide_terms(rng, n)
+    terms = _wide_terms(rng, n, ladder=LADDER_SPARSE if api in ("sparse", "expect") else LADDER_ALL)
     if api == "hc" and rng.random() < 0.7:
         terms = _dedupe_keys(terms)
         if rng.random() < 0.5:
@@ -946,7 +1087,7 @@ def _gen_huge(rng, tier):
     evaluated on sampled rows of the 2^n-dimensional matrices"""
     n = rng.choice([20, 33, 63, 64, 65, 100, 130, 257])
     api = rng.choice(["reverse", "hc"])
-    terms = _wide_terms(rng, n)
+    terms = _wide_terms(rng, n, ladder=LADDER_ALL)
     if api == "hc" and rng.random() < 0.7:
         terms = _dedupe_keys(terms)
         if rng.random() < 0.5:
@@ -1145,6 +1286,15 @@ def corpus():
         # explicit identity letters do not count for the width
         {"kind": "sparse", "sum": [{"ops": [[0, "Y"]], "c": [1, 1], "t": "c", "pad_I": [3]}], "n": None, "as_term": True, "exact": True},
         {"kind": "reverse", "sum": [{"ops": [[0, "Y"]], "c": [1, 1], "t": "c", "pad_I": [3]}, {"ops": [[1, "Z"]], "c": [2, 0], "t": "ni"}], "n": None, "exact": True},
+        # the NUMBER TYPE of a coefficient / matrix entry / amplitude: complex-valued types that are not subclasses of `complex`
+        # (numpy.complex64, seeded change C09_r8: conjugation skipped unless isinstance(coefficient, complex)), narrow reals, ints, exact objects
+        {"kind": "hc", "sum": [{"ops": [[1, "Y"]], "c": [1, 2], "t": "c64"}], "as_term": True, "exact": True},
+        {"kind": "hc", "sum": [{"ops": [[0, "Y"], [2, "X"]], "c": ["3/2", "1/4"], "t": "c64"}, {"ops": [[1, "Z"]], "c": ["-3/8", -1], "t": "sI"},
+                               {"ops": [], "c": [2, 0], "t": "i8"}], "exact": True, "mdt": "c64"},
+        {"kind": "expect", "sum": [{"ops": [[0, "Y"], [1, "X"]], "c": ["3/2", "1/2"], "t": "c64"}, {"ops": [[1, "Z"]], "c": ["-1/4", 0], "t": "f32"},
+                                   {"ops": [], "c": [1, 0], "t": "nb"}],
+         "psi": [["1/2", 0], [0, "1/2"], ["-1/2", 0], ["1/2", 0]], "rev": True, "exact": True, "psi_dt": "c64"},
+        {"kind": "from_matrix", "m": [[[1, "1/2"], [2, 0]], [["1/2", -1], [-3, 0]]], "form": "ndarray", "dt": "c64", "exact": True},
     ] + _corpus_sessions()
 
 
@@ -1157,7 +1307,7 @@ def generate(rng, tier):
     for _ in range(1200 if big else 110):
         exact = rng.random() < 0.85
         w = rng.randrange(0, maxw + 1)
-        s = _gen_sum(rng, w, exact, flavour=_pick_flavour(rng, exact))
+        s = _gen_sum(rng, w, exact, flavour=_pick_flavour(rng, exact), ladder=LADDER_SPARSE)
         width = _width(s)
         r = rng.random()
         if r < 0.12:
@@ -1178,24 +1328,27 @@ def generate(rng, tier):
     for letters in itertools.product("IXYZ", repeat=lim):
         ops = [[q, p] for q, p in enumerate(letters) if p != "I"]
         for extra in (0, 1):
-            cases.append({"kind": "sparse", "sum": [{"ops": list(reversed(ops)), "c": ["1/2", "-3/8"], "t": "c"}],
+            cases.append({"kind": "sparse", "sum": [{"ops": list(reversed(ops)), "c": ["1/2", "-3/8"], "t": ("c", "c64", "c", "clg")[(len(cases) + extra) % 4]}],
                           "n": _width([{"ops": ops}]) + extra, "exact": True})
     # a few registers of 6-7 qubits
     for _ in range(12 if big else 3):
         w = rng.choice([5, 6, 7])
-        s = _gen_sum(rng, w, True, flavour=_pick_flavour(rng)) or [_gen_term(rng, w, True)]
+        s = _gen_sum(rng, w, True, flavour=_pick_flavour(rng), ladder=LADDER_SPARSE) or [_gen_term(rng, w, True)]
         cases.append({"kind": "sparse", "sum": s[:4], "n": rng.choice([None, max(_width(s[:4]), 6), 7]), "exact": True})
 
     # ---- hermitian_conjugated / is_hermitian
     for _ in range(1200 if big else 110):
         exact = rng.random() < 0.85
         herm = rng.random() < 0.4
-        s = _gen_sum(rng, rng.randrange(0, maxw + 1), exact, hermitian=herm, flavour=_pick_flavour(rng, exact))
+        s = _gen_sum(rng, rng.randrange(0, maxw + 1), exact, hermitian=herm, flavour=_pick_flavour(rng, exact), ladder=LADDER_ALL)
         if rng.random() < 0.6:
             s = _dedupe_keys(s)
         c = {"kind": "hc", "sum": s, "exact": exact}
         if len(s) == 1 and rng.random() < 0.5:
             c["as_term"] = True
+        if exact and rng.random() < 0.5:
+            # the operator's own matrix also as an array / sparse matrix of a ladder dtype (where that dtype carries it exactly)
+            c["mdt"] = rng.choice(LADDER_HC_MATRIX)
         cases.append(c)
 
     # ---- get_pauliop_from_matrix
@@ -1207,11 +1360,16 @@ def generate(rng, tier):
             exact = True
         if style == "span":
             n = min(n, 2)
-        cases.append({"kind": "from_matrix", "m": _gen_matrix(rng, n, exact, style), "exact": exact,
-                      "form": rng.choice(["list", "list", "ndarray", "rows", "tuple"])})
+        c = {"kind": "from_matrix", "m": _gen_matrix(rng, n, exact, style), "exact": exact,
+             "form": rng.choice(["list", "list", "ndarray", "rows", "tuple"])}
+        if exact and rng.random() < 0.45:
+            tags = _matrix_tags(c["m"])
+            if tags:
+                c["dt"] = rng.choice(tags)
+        cases.append(c)
     for _ in range(8 if big else 2):
         cases.append({"kind": "from_matrix", "m": _gen_matrix(rng, 4, True, rng.choice(["dense", "sparse", "hermitian", "pauli"])),
-                      "exact": True, "form": rng.choice(["list", "ndarray"])})
+                      "exact": True, "form": rng.choice(["list", "ndarray"]), "dt": rng.choice([None, "c64", "clg"])})
     if big:
         cases.append({"kind": "from_matrix", "m": _gen_matrix(rng, 5, True, "sparse"), "exact": True, "form": "ndarray"})
     for _ in range(150 if big else 12):
@@ -1219,7 +1377,11 @@ def generate(rng, tier):
         n = rng.choice([1, 2, 3])
         s = _dedupe_keys(_gen_sum(rng, n, True))
         a = _ref_matrix(s, n)
-        cases.append({"kind": "from_matrix", "m": [[_cz(x) for x in row] for row in a], "exact": True})
+        c = {"kind": "from_matrix", "m": [[_cz(x) for x in row] for row in a], "exact": True, "form": rng.choice(["list", "ndarray", "rows"])}
+        tags = _matrix_tags(c["m"])
+        if tags and rng.random() < 0.5:
+            c["dt"] = rng.choice(tags)
+        cases.append(c)
     for shape in ([(2, 4), (4, 2), (3, 3), (6, 6), (1, 2), (5, 5), (2, 3)] if big else [(2, 4), (3, 3), (6, 6), (4, 2)]):
         cases.append({"kind": "from_matrix", "m": [[[rng.randrange(-2, 3), 0] for _ in range(shape[1])] for _ in range(shape[0])],
                       "exact": True})
@@ -1227,7 +1389,7 @@ def generate(rng, tier):
     # ---- reverse_qubit_order
     for _ in range(1000 if big else 90):
         exact = rng.random() < 0.85
-        s = _gen_sum(rng, rng.randrange(0, maxw + 1), exact, flavour=_pick_flavour(rng, exact))
+        s = _gen_sum(rng, rng.randrange(0, maxw + 1), exact, flavour=_pick_flavour(rng, exact), ladder=LADDER_ALL)
         if rng.random() < 0.5:
             s = _dedupe_keys(s)
         width = _width(s)
@@ -1248,18 +1410,22 @@ def generate(rng, tier):
     # ---- get_expectation_value / expectation
     for _ in range(1000 if big else 100):
         n = rng.randrange(0, (5 if big else 4) + 1)
-        mode = rng.choice(["dyadic", "dyadic", "dyadic", "pyth", "sqrt2", "real", "uniform"])
-        exact = (mode in ("dyadic", "real") or (mode == "uniform" and n % 2 == 0)) and rng.random() < 0.9
+        mode = rng.choice(["dyadic", "dyadic", "dyadic", "pyth", "sqrt2", "real", "uniform", "basis"])
+        exact = (mode in ("dyadic", "real", "basis") or (mode == "uniform" and n % 2 == 0)) and rng.random() < 0.9
         malformed = rng.random() < 0.07
-        s = _gen_sum(rng, min(n + (1 if malformed else 0), maxw + 1), exact, flavour=_pick_flavour(rng, exact))
+        s = _gen_sum(rng, min(n + (1 if malformed else 0), maxw + 1), exact, flavour=_pick_flavour(rng, exact), ladder=LADDER_SPARSE)
         c = {"kind": "expect", "sum": s, "psi": _gen_psi(rng, n, mode), "rev": rng.random() < 0.5, "exact": exact}
         if len(s) == 1 and rng.random() < 0.3:
             c["as_term"] = True
+        if mode in ("dyadic", "real", "basis", "uniform") and rng.random() < 0.4:
+            # the state as an array of a ladder dtype (Wavefunction(...) and expectation(matrix, state)); honoured where it fits
+            c["psi_dt"] = rng.choice(LADDER_STATE if mode != "dyadic" else ("c64", "c64", "clg", "list"))
         cases.append(c)
     for _ in range(12 if big else 3):
         n = rng.choice([6, 7])
-        s = _gen_sum(rng, n, True, flavour=_pick_flavour(rng)) or [_gen_term(rng, n, True)]
-        cases.append({"kind": "expect", "sum": s[:4], "psi": _gen_psi(rng, n, "dyadic"), "rev": rng.random() < 0.5, "exact": True})
+        s = _gen_sum(rng, n, True, flavour=_pick_flavour(rng), ladder=LADDER_SPARSE) or [_gen_term(rng, n, True)]
+        cases.append({"kind": "expect", "sum": s[:4], "psi": _gen_psi(rng, n, "dyadic"), "rev": rng.random() < 0.5, "exact": True,
+                      "psi_dt": rng.choice([None, "c64", "clg"])})
 
     # ---- histories on long-lived objects
     for _ in range(700 if big else 90):
@@ -1278,7 +1444,7 @@ def generate(rng, tier):
     for kind in ("sparse", "hc", "reverse", "expect"):
         for _ in range(5 if big else 1):
             w = rng.choice([2, 3, 4])
-            s = _gen_sum(rng, w, True, flavour="long") or [_gen_term(rng, w, True)]
+            s = _gen_sum(rng, w, True, flavour="long", ladder=LADDER_SPARSE if kind in ("sparse", "expect") else LADDER_ALL) or [_gen_term(rng, w, True)]
             c = {"kind": kind, "sum": s, "exact": True}
             if kind in ("sparse", "reverse"):
                 c["n"] = rng.choice([None, w, w + 1])
@@ -1292,7 +1458,7 @@ def generate(rng, tier):
     sizes = ladder + [x + d for x in rng.sample(ladder, 4 if big else 2) for d in (-1, 1)]
     for nt in sizes:
         w = rng.choice([2, 3])
-        s = _gen_sum(rng, w, True, flavour="long", nt=nt)
+        s = _gen_sum(rng, w, True, flavour="long", nt=nt, ladder=LADDER_SPARSE)
         kind = "sparse" if nt in ladder else rng.choice(["sparse", "expect", "reverse", "hc"])
         c = {"kind": kind, "sum": s, "exact": True}
         if kind in ("sparse", "reverse"):
@@ -1354,10 +1520,30 @@ def _do_sparse(op, n):
 
 def _do_hc(op, as_term):
     PauliSum, PauliTerm, _, hconj, isherm, _, _ = _mods()
+    import warnings
     h = hconj(op)
+    out = {"types": sorted({_tclass(t.coefficient) for t in op.terms})}
+    try:
+        with warnings.catch_warnings():
+            warnings.simplefilter("ignore", RuntimeWarning)     # float16 * 1e6 overflows inside PauliTerm.__hash__
+            out["herm"] = bool(isherm(op))
+    except (TypeError, OverflowError) as e:
+        # judged by the oracle: only admissible for the coefficient classes on which the library's `==` is undefined
+        out["herm"], out["herm_exc"] = None, f"{type(e).__name__}: {str(e)[:100]}"
     if as_term:
-        return {"hc": [_canon_term(h)], "is_term": isinstance(h, PauliTerm), "herm": bool(isherm(op))}, h
-    return {"hc": _canon_sum(h), "is_sum": isinstance(h, PauliSum), "herm": bool(isherm(op))}, h
+        out.update({"hc": [_canon_term(h)], "is_term": isinstance(h, PauliTerm)})
+    else:
+        out.update({"hc": _canon_sum(h), "is_sum": isinstance(h, PauliSum)})
+    return out, h
+
+
+def _herm_unjudged(c, out):
+    """is_hermitian raised, and some coefficient of the operator is of a class on which the unchanged library's `==` of operators
+    raises (HERM_UNDEFINED_*, see ASSUMPTIONS): no verdict on the Hermiticity test.  Any other raise is reported."""
+    if out.get("herm") is not None:
+        return False
+    bad = HERM_UNDEFINED_TERM if c.get("as_term") else HERM_UNDEFINED_SUM
+    return any(t in bad for t in out.get("types", []))
 
 
 def _do_from_matrix(rows):
@@ -1463,7 +1649,7 @@ def _run_session(c):
     as_term = [bool(o.get("as_term")) for o in c["ops"]]
     ops = [terms[o["terms"][0]] if o.get("as_term") else PauliSum([terms[k] for k in o["terms"]]) for o in c["ops"]]
     wfs = [Wavefunction(np.array(_psi_complex(p), dtype=complex)) for p in c.get("psis", [])]
-    mats = [_build_matrix(m["m"], m.get("form", "list"), mutable=True) for m in c.get("mats", [])]
+    mats = [_build_matrix(m["m"], m.get("form", "list"), mutable=True, dt=m.get("dt")) for m in c.get("mats", [])]
     outs, results = [], []
     for st in c["steps"]:
         do = st["do"]
@@ -1516,7 +1702,9 @@ def _run_session(c):
                     out = {"err": "err:value"}
                 else:
                     try:
-                        out = _expect_route(m, np.array(wfs[st["psi"]].amplitudes, dtype=complex), st["route"])
+                        amps = np.array(wfs[st["psi"]].amplitudes, dtype=complex)
+                        typed = _typed_array(amps, c["amp_dt"]) if c.get("amp_dt") else None
+                        out = _expect_route(m, amps if typed is None else typed, st["route"])
                     except ValueError as e:
                         out = {"err": "err:value", "msg": str(e)[:100]}
             else:
@@ -1583,7 +1771,15 @@ def run_impl(c):
             import scipy.sparse
             a = _ref_matrix(c["sum"], w)
             mats = {}
-            for name, m in (("dense", a.copy()), ("sparse", scipy.sparse.csc_matrix(a))):
+            variants = [("dense", a.copy()), ("sparse", scipy.sparse.csc_matrix(a))]
+            ta = _typed_array(a, c["mdt"]) if c.get("mdt") else None
+            if ta is not None:
+                # (not generated: dense float16 -- FINDING is-hermitian-float16-matrix; dense bool -- numpy refuses `-` on booleans,
+                #  a TypeError; sparse float16 -- scipy.sparse rejects the dtype, a ValueError)
+                if c["mdt"] != "nb":
+                    variants.append(("dense " + _NP_NAMES[c["mdt"]], ta.copy()))
+                variants.append(("sparse " + _NP_NAMES[c["mdt"]], scipy.sparse.csc_matrix(ta)))
+            for name, m in variants:
                 try:
                     h = hconj(m)
                     h = h.toarray() if hasattr(h, "toarray") else np.asarray(h)
@@ -1593,17 +1789,22 @@ def run_impl(c):
             out["mats"] = mats
         return out
     if k == "from_matrix":
-        return _do_from_matrix(_build_matrix(c["m"], c.get("form", "list")))[0]
+        return _do_from_matrix(_build_matrix(c["m"], c.get("form", "list"), dt=c.get("dt")))[0]
     if k == "reverse":
         return _do_reverse(_op(c), _n_arg(c))[0]
     if k == "expect":
         psi = np.array(_psi_complex(c["psi"]), dtype=complex)
-        wf = Wavefunction(psi.copy())
+        dt = c.get("psi_dt")
+        typed = _typed_array(psi, dt) if dt not in (None, "list") else None
+        state = psi if typed is None else typed                # the caller's state as an array of the ladder dtype, where it fits
+        wf = Wavefunction([complex(x) for x in psi] if dt == "list" else state.copy())
         op = _op(c)
         out = _do_expect(op, wf, c["rev"])[0]
         if "v" in out:
             n = len(c["psi"]).bit_length() - 1
-            out["alts"] = _expect_alts(_op(c), psi, c["rev"], n, rho=n <= 6)  # a fresh operator: no shared history
+            # a fresh operator: no shared history; (scipy.sparse has no float16: no density matrix of that dtype)
+            out["alts"] = _expect_alts(_op(c), state, c["rev"], n, rho=n <= 6 and state.dtype.name != "float16")
+        out["psi_dtype"] = "list" if dt == "list" else state.dtype.name
         return out
     if k == "bits":
         from orquestra.quantum.utils import bin2dec, dec2bin
@@ -1774,7 +1975,10 @@ def _compare_single(c, out, resp):
         mh = [r["hc"]] if c.get("as_term") else r["hc"]
         if not _sum_eq(mh, out["hc"], exact):
             return f"hermitian_conjugated: impl {out['hc']} model {mh}"
-        if bool(r["herm"]) != out["herm"] and not _herm_ambiguous(c["sum"]):
+        if out["herm"] is None:
+            if not _herm_unjudged(c, out):
+                return f"is_hermitian: implementation raised {out.get('herm_exc')}; model {r['herm']}"
+        elif bool(r["herm"]) != out["herm"] and not _herm_ambiguous(c["sum"]):
             return f"is_hermitian: impl {out['herm']} model {r['herm']}"
     elif k == "from_matrix":
         if isinstance(r, str) or "err" in out:
@@ -1886,7 +2090,9 @@ def _oracle_single(c, out):
         if diff > 1e-7 * scale:
             return ("hc-matrix", f"hermitian_conjugated(op) differs from the conjugate-transposed matrix by {diff:.3g}")
         dev = _maxdiff(a, a.conj().T)
-        if _is_simplified(s):
+        if out["herm"] is None and not _herm_unjudged(c, out):
+            return ("hc-raise", f"is_hermitian raised on an operator with coefficients of class {out.get('types')}: {out.get('herm_exc')}")
+        if _is_simplified(s) and out["herm"] is not None:
             if dev <= 1e-12 and not out["herm"]:
                 return ("herm-test", "is_hermitian is False but the matrix equals its conjugate transpose")
             if dev >= 1e-3 and out["herm"]:
@@ -1998,7 +2204,9 @@ def _oracle_wide(c, out):
         diff = _ent_diff(_ref_entries(terms, n), ah)
         if diff > 1e-7 * scale:
             return ("wide-hc", f"hermitian_conjugated(op) differs from the conjugate-transposed matrix by {diff:.3g} on {n} qubits")
-        if _is_simplified(s):
+        if out["herm"] is None and not _herm_unjudged(c, out):
+            return ("wide-raise", f"is_hermitian raised on an operator with coefficients of class {out.get('types')}: {out.get('herm_exc')}")
+        if _is_simplified(s) and out["herm"] is not None:
             dev = _ent_diff(a, ah)
             if dev <= 1e-12 and not out["herm"]:
                 return ("wide-herm-test", "is_hermitian is False but the matrix equals its conjugate transpose")
@@ -2076,7 +2284,9 @@ def _oracle_huge(c, out):
         if d > tol:
             return ("huge-hc", f"hermitian_conjugated(op): row {r} of its matrix differs from the conjugate-transposed matrix by {d:.3g} on {n} qubits")
         nonherm = max(nonherm, _row_diff(_ref_row(s, n, r), want))
-    if _is_simplified(s):
+    if out["herm"] is None and not _herm_unjudged(c, out):
+        return ("huge-raise", f"is_hermitian raised on an operator with coefficients of class {out.get('types')}: {out.get('herm_exc')}")
+    if _is_simplified(s) and out["herm"] is not None:
         if nonherm >= 1e-3 and out["herm"]:
             return ("huge-herm-test", f"is_hermitian is True but the matrix differs from its conjugate transpose by {nonherm:.3g}")
         if all(unrat(t["c"][1]) == 0 for t in s) and not out["herm"]:
@@ -2118,9 +2328,47 @@ def oracle(c, out):
     return _oracle_single(c, out)
 
 
+def _type_tags(c):
+    """the spellings of the coefficients a case hands to the library (initial operators, edits, replacements); a ladder tag the
+    type cannot carry exactly falls back to a Python complex and is counted as such"""
+    def tag(t):
+        ty = t.get("t", "c")
+        if ty in LADDER_ALL and _ladder_value(ty, unrat(t["c"][0]), unrat(t["c"][1])) is None:
+            return "c"
+        return ty
+    if c["kind"] == "session":
+        ts = [tag(t) for t in c["pool"]]
+        for st in c["steps"]:
+            if st["do"] == "set_coeff":
+                ts.append(tag(st))
+            elif st["do"] == "replace":
+                ts += [tag(t) for t in st["sum"]]
+        return ts
+    return [tag(t) for t in c.get("sum", [])]
+
+
 def distribution(cases, outs):
     kinds = {}
     steps = {}
+    tags, mat_dt, psi_dt, hc_mats, unjudged = {}, {}, {}, {}, 0
+    for c, o in zip(cases, outs):
+        for t in _type_tags(c):
+            tags[t] = tags.get(t, 0) + 1
+        if c["kind"] == "from_matrix" and c.get("dt"):
+            mat_dt[c["dt"] + ":" + c.get("form", "list")] = mat_dt.get(c["dt"] + ":" + c.get("form", "list"), 0) + 1
+        if c["kind"] == "session":
+            for m in c.get("mats", []):
+                if m.get("dt"):
+                    mat_dt["session " + m["dt"]] = mat_dt.get("session " + m["dt"], 0) + 1
+        if isinstance(o, dict):
+            if o.get("psi_dtype") not in (None, "complex128"):
+                psi_dt[o["psi_dtype"]] = psi_dt.get(o["psi_dtype"], 0) + 1
+            for name in o.get("mats", {}):
+                if " " in name:
+                    hc_mats[name] = hc_mats.get(name, 0) + 1
+            for oo in [o] + list(o.get("steps", [])):
+                if isinstance(oo, dict) and "herm" in oo and oo["herm"] is None:
+                    unjudged += 1
     for c in cases:
         if c["kind"] in ("sparse", "reverse"):
             w = _width(c["sum"])
@@ -2146,6 +2394,11 @@ def distribution(cases, outs):
         "huge_widths": sorted({(_width(c["sum"]) if c.get("n") is None else c["n"]) for c in cases if c["kind"] == "huge"}),
         "matrix_sizes": sorted({len(c["m"]) for c in cases if c["kind"] == "from_matrix"}),
         "matrix_forms": sorted({c.get("form", "list") for c in cases if c["kind"] == "from_matrix"}),
+        "coefficient_type_tags": dict(sorted(tags.items())),
+        "from_matrix_ladder_dtypes": dict(sorted(mat_dt.items())),
+        "state_ladder_dtypes": dict(sorted(psi_dt.items())),
+        "hc_on_matrix_ladder_dtypes": dict(sorted(hc_mats.items())),
+        "hermiticity_test_raised_on_ladder_type(unjudged)": unjudged,
         "hermitian_true": sum(1 for o in outs if isinstance(o, dict) and o.get("herm") is True),
         "hermitian_false": sum(1 for o in outs if isinstance(o, dict) and o.get("herm") is False),
     }
